@@ -386,7 +386,13 @@ class ShimLock:
         if self.held:
             if not blocking:
                 return False
-            s.block(self, "lock")
+            if timeout is not None and timeout >= 0:
+                # timed acquire: may time out at any moment (see ShimEvent.wait)
+                s.yield_point("lock.acquire.timed", self)
+                if self.held:
+                    return False
+            else:
+                s.block(self, "lock")
         if s.aborting:
             return True
         self.held = True
@@ -449,6 +455,14 @@ class ShimEvent:
     def wait(self, timeout=None):
         s = _ACTIVE
         if s is None or s.aborting or s.current is None:
+            return self.flag
+        if timeout is not None:
+            # a timed wait: simulated time is not tied to scheduler steps (the thread we wait for may be
+            # arbitrarily slow), so the timeout may expire at any moment -- one pre-emption point, then the
+            # call returns whatever the flag is by then.  The code under test as shipped never waits with a
+            # timeout; this only matters for changed code.
+            s.counters["timed_waits"] = s.counters.get("timed_waits", 0) + 1
+            s.yield_point("event.wait.timed", self)
             return self.flag
         self.waiters.append(s.current.idx)
         s.yield_point("event.wait", self)
